@@ -460,9 +460,28 @@ def missing_args(ctx, match, mpaths, msg, selft):
                         ((c[1] == '>=') == pol) and 'len' in term_str(c)
                         for c, pol in bp.cond)]
                     if short:
+                        # the iteration returns at once, or leaves the loop
+                        # by `break` on a path that never reaches the
+                        # callback (the any()/flag form)
+                        lid = ev[1]
+
+                        def ends_without_callback(bp):
+                            if bp.outcome == 'return':
+                                return True
+                            if bp.outcome != 'break':
+                                return False
+                            outs = [q for q in mpaths if any(
+                                e[0] == 'loop-iter' and e[1] == lid
+                                for e in q.trace) and all(
+                                    cp in q.cond for cp in bp.cond)]
+                            return bool(outs) and not any(
+                                kind(c[2]) == 'attr' and
+                                c[2][2] == 'callback'
+                                for q in outs for c in q.calls(deep=False))
                         ctx.ob('C12.D4', match.qualname, 'short-body-no-'
                                'match:%s' % key,
-                               all(bp.outcome == 'return' for bp in short),
+                               all(ends_without_callback(bp)
+                                   for bp in short),
                                'an argument index beyond the body must not '
                                'match', nontrivial=False)
                     break
@@ -542,6 +561,25 @@ def rule_text(ctx):
             k = node.args[0]
             if isinstance(k, ast.Constant):
                 text[node.args[1].id] = k.value
+        # the same calls written as a loop over a literal table of
+        # (key, parameter) pairs
+        if isinstance(node, ast.For) and isinstance(node.iter, ast.Tuple) \
+                and isinstance(node.target, ast.Tuple) and \
+                len(node.target.elts) == 2 and \
+                all(isinstance(t, ast.Name) for t in node.target.elts):
+            kn, vn = (t.id for t in node.target.elts)
+            calls_add = any(
+                isinstance(c, ast.Call) and isinstance(c.func, ast.Name)
+                and c.func.id == 'add' and len(c.args) == 2 and
+                isinstance(c.args[0], ast.Name) and c.args[0].id == kn and
+                isinstance(c.args[1], ast.Name) and c.args[1].id == vn
+                for st in node.body for c in ast.walk(st))
+            if calls_add and len(node.body) == 1:
+                for e in node.iter.elts:
+                    if isinstance(e, ast.Tuple) and len(e.elts) == 2 and \
+                            isinstance(e.elts[0], ast.Constant) and \
+                            isinstance(e.elts[1], ast.Name):
+                        text[e.elts[1].id] = e.elts[0].value
     for prm, key in spec_keys.items():
         ctx.ob('C12.D6', fi.qualname, 'text-key:%s' % prm,
                text.get(prm) == key,
